@@ -600,6 +600,10 @@ def class_key(cls, steps, out):
         # one or more rejected FUNCTION definitions: sporadic segfault later in the session (heap-layout dependent:
         # the same session may pass with a compiler built from slightly different sources)
         return "C13 gloop:many-rejected-function-definitions:later-segfault"
+    if cls == "loop-crashed" and any(b and s.startswith(("for ", "while ")) for s, _, b in steps):
+        # a REJECTED top-level loop (e.g. an undefined name in its generator) followed by an accepted top-level loop:
+        # the accepted loop starts running and the session dies (deterministic; replay recorded with the finding)
+        return "C13 gloop:toplevel-loop-after-rejected-toplevel-loop:crash"
     return None
 
 
